@@ -1110,6 +1110,17 @@ func (c *SpecCtx) call(e *Expr, pos bool) *Term {
 		return mk(x.reg.HeapSort(arr), c.heapArr(arr).S)
 	case "frame", "unchanged":
 		return c.frameClause(e, name == "unchanged")
+	case "startTrace":
+		// startTrace(n): the ghost trace at the head of loop n, in the current iteration
+		if c.frame == nil || e.Args[0].Op != "int" {
+			c.fail("startTrace(n) needs a loop ordinal and a loop context")
+		}
+		for _, en := range c.frame.active {
+			if fmt.Sprint(en.ordinal) == e.Args[0].Name {
+				return en.trace
+			}
+		}
+		c.fail("startTrace(%s): loop not active", e.Args[0].Name)
 	case "noKeys":
 		// noKeys("K"): the empty set of K
 		ks, _ := x.sortOfTypeString(c.pkgPath, strArg(0))
@@ -1144,13 +1155,20 @@ func (c *SpecCtx) call(e *Expr, pos bool) *Term {
 		}
 		return And(cs...)
 	case "evSet":
+		// evSet(v, s, ok): v.Set(s) returned; ok says whether the error was nil
 		x.reg.SeqSort("Ev")
 		v := arg(0)
-		return App("Ev", "ev", IntLit(evSet), App("Int", "ival", v), App("Int", "itag", v), arg(1))
+		return App("Ev", "ev", IntLit(evSet), App("Int", "ival", v), Ite(arg(2), IntLit(1), IntLit(0)), arg(1))
 	case "evClear":
 		x.reg.SeqSort("Ev")
 		v := arg(0)
-		return App("Ev", "ev", IntLit(evClear), App("Int", "ival", v), App("Int", "itag", v), mk("Str", "sempty"))
+		return App("Ev", "ev", IntLit(evClear), App("Int", "ival", v), IntLit(1), mk("Str", "sempty"))
+	case "tr_prefix":
+		x.reg.SeqSort("Ev")
+		return App("Bool", "tr_prefix", arg(0), arg(1))
+	case "noEvents":
+		x.reg.SeqSort("Ev")
+		return mk("Seq_Ev", "nil_Ev")
 	case "frameOldMaps", "unchangedOldMaps":
 		// frameOldMaps(m1, m2, ...): every map object of that type that existed in the pre-state, other than m1, m2, ..., is unchanged
 		// unchangedOldMaps(m): every map object of m's type that existed in the pre-state is unchanged (m only gives the type)
